@@ -12,6 +12,7 @@ import PV.Model.Table
 import PV.Spec.Map
 import PV.Spec.TableInv
 import PV.Model.Fold
+import PV.Model.B64filter
 import PV.Spec.Base64
 /-
 One function per unit: `List String` (the operation's arguments) to one output line.
@@ -214,6 +215,26 @@ def fold (op : String) (args : List String) : String :=
     | _, _, _ => "bad-op"
   | _, _ => "bad-op"
 
+/-- built-in line-to-line children matching the real children the harness uses
+    (`cat`, `tr a-z A-Z`, `sed s/^/X/`). -/
+def childFn (name : String) : Option (List (List UInt8) → List (List UInt8)) :=
+  match name with
+  | "id" => some id
+  | "upper" => some (fun ls => ls.map (fun l => l.map (fun b => if 97 ≤ b && b ≤ 122 then b - 32 else b)))
+  | "prefix" => some (fun ls => ls.map (fun l => 88 :: l))
+  | _ => none
+
+def b64f (op : String) (args : List String) : String :=
+  match op, args with
+  | "run", [child, h] =>     -- h = the tool's stdin
+    match childFn child, unhex h with
+    | some f, some input =>
+      match PV.B64filter.run f (PV.Spec.Records.splitRecords 10 true input) with
+      | some out => s!"ok {hex (PV.Spec.Records.unlines out)}"
+      | none => "ERR:abort"
+    | _, _ => "bad-op"
+  | _, _ => "bad-op"
+
 def dispatch (line : String) : String :=
   match words line with
   | [] => "bad-op"
@@ -225,6 +246,7 @@ def dispatch (line : String) : String :=
     | ["docenc", op] => docenc op args
     | ["murmur", op] => murmur op args
     | ["fold", op] => fold op args
+    | ["b64f", op] => b64f op args
     | ["murmur", "spec", op] => murmur ("spec." ++ op) args
     | ["fields", op] => fields op args
     | ["fields", "spec", op] => fields ("spec." ++ op) args
